@@ -94,7 +94,7 @@ func c19Field(r *core.Rand, typ string, sep string, stats map[string]int) string
 		return []string{"1", "true", "t", "0", "false", "f", "TRUE", "False", "T", "F"}[r.Intn(10)]
 	}
 	stats["varchar_valid"]++
-	pool := []string{"", "plain", "with space", "comma,inside", "semi;colon", "quote\"inside", "line\nbreak", "tab\there", "é ü", "'single'", "NULL", "N", `\n`, "pipe|bar", strings.Repeat("x", 50)}
+	pool := []string{"", "plain", "with space", " lead", "  two leading", "trail ", "\tx", "comma,inside", "semi;colon", "quote\"inside", "line\nbreak", "tab\there", "é ü", "'single'", "NULL", "N", `\n`, "pipe|bar", strings.Repeat("x", 50)}
 	s := pool[r.Intn(len(pool))]
 	if r.Chance(1, 40) {
 		stats["varchar_oversize"]++
